@@ -402,6 +402,63 @@ Proof. cbn [msg_sizes_ok]. trivial. Qed.
 Lemma msg_nth_error_nth (S : schema) tid md : nth_error S tid = Some md -> nth tid S [] = md.
 Proof. intros H. apply nth_error_nth with (d := []) in H. exact H. Qed.
 
+(* ---------- the field order is a permutation ---------- *)
+Lemma msg_chunk_insert_perm {A} (c : N * A) l : Permutation (msg_chunk_insert c l) (c :: l).
+Proof.
+  induction l as [|x l IH]; [reflexivity|]. cbn [msg_chunk_insert].
+  destruct (fst x <=? fst c); [|reflexivity].
+  rewrite IH. apply perm_swap.
+Qed.
+
+Lemma msg_chunk_sort_perm {A} (l : list (N * A)) : Permutation (msg_chunk_sort l) l.
+Proof.
+  induction l as [|c l IH]; [reflexivity|]. cbn [msg_chunk_sort].
+  rewrite msg_chunk_insert_perm. now rewrite IH.
+Qed.
+
+Lemma msg_chunk_insert_map {A B} (f : A -> B) (c : N * A) l :
+  msg_chunk_insert (fst c, f (snd c)) (map (fun x => (fst x, f (snd x))) l) =
+  map (fun x => (fst x, f (snd x))) (msg_chunk_insert c l).
+Proof.
+  induction l as [|x l IH]; [reflexivity|]. cbn [msg_chunk_insert map fst].
+  destruct (fst x <=? fst c); [|reflexivity]. cbn [map]. now rewrite IH.
+Qed.
+
+Lemma msg_chunk_sort_map {A B} (f : A -> B) (l : list (N * A)) :
+  msg_chunk_sort (map (fun x => (fst x, f (snd x))) l) = map (fun x => (fst x, f (snd x))) (msg_chunk_sort l).
+Proof.
+  induction l as [|c l IH]; [reflexivity|]. cbn [msg_chunk_sort map].
+  rewrite IH. apply msg_chunk_insert_map.
+Qed.
+
+(* the body of a message is the concatenation of its fields in some order, then the unknown bytes *)
+Lemma msg_enc_body_perm S tid fs unk :
+  exists P, Permutation P fs /\
+    msg_enc_body S tid (VMsg fs unk) =
+    flat_map (fun p => snd (msg_enc_chunk (msg_enc_body S) (nth tid S []) p)) P ++ unk.
+Proof.
+  set (md := nth tid S []). set (h := fun p => snd (msg_enc_chunk (msg_enc_body S) md p)).
+  set (K := map (fun p => (fst (msg_enc_chunk (msg_enc_body S) md p), p)) fs).
+  exists (map snd (msg_chunk_sort K)). split.
+  - rewrite (Permutation_map snd (msg_chunk_sort_perm K)). unfold K. rewrite map_map. cbn [snd].
+    rewrite map_id. reflexivity.
+  - cbn [msg_enc_body]. fold md. f_equal.
+    assert (E : map (fun p => msg_enc_chunk (msg_enc_body S) md p) fs = map (fun x => (fst x, h (snd x))) K).
+    { unfold K. rewrite map_map. apply map_ext. intros p. cbn [fst snd]. unfold h. apply surjective_pairing. }
+    rewrite E, msg_chunk_sort_map. rewrite map_map. cbn [snd].
+    rewrite flat_map_concat_map, map_map. reflexivity.
+Qed.
+
+Lemma msg_bytes_cmp_eq : forall a b, msg_bytes_cmp a b = Eq -> a = b.
+Proof.
+  induction a as [|x a IH]; destruct b as [|y b]; cbn [msg_bytes_cmp]; try discriminate; [reflexivity|].
+  destruct (b2n x ?= b2n y) eqn:E; try discriminate. intros H.
+  apply N.compare_eq in E. f_equal; [|apply IH; exact H].
+  rewrite <- (n2b_b2n x), <- (n2b_b2n y), E. reflexivity.
+Qed.
+Lemma msg_bytes_eqb_eq a b : msg_bytes_eqb a b = true -> a = b.
+Proof. unfold msg_bytes_eqb. destruct (msg_bytes_cmp a b) eqn:E; try discriminate. intros _. now apply msg_bytes_cmp_eq. Qed.
+
 (* ---------- the statement proved by induction on values ---------- *)
 Section Main.
   Variable slow : bool.
@@ -409,13 +466,18 @@ Section Main.
   Notation dm := (msg_decode_msg slow S).
   Notation eb := (msg_enc_body S).
 
-  Definition msg_term_ok (grp : N) (term rest : list byte) : Prop :=
+  Definition msg_no_unknown (v : value) : Prop :=
+    match v with VMsg _ (_ :: _) => False | _ => True end.
+
+  (* what follows the body: nothing (top level, length-delimited), or the end-group tag; in the
+     second case the value must not carry unknown bytes (restriction [grp_unknown]) *)
+  Definition msg_term_ok (v : value) (grp : N) (term rest : list byte) : Prop :=
     (grp = 0 /\ term = [] /\ rest = []) \/
-    (1 <= grp /\ grp <= msg_max_num /\ term = enc_tag grp 4 ++ rest).
+    (1 <= grp /\ grp <= msg_max_num /\ term = enc_tag grp 4 ++ rest /\ msg_no_unknown v).
 
   Definition msg_dec_stmt (v : value) : Prop :=
     forall dep tid, msg_typed slow S dep tid v = true -> msg_sizes_ok S tid v = true ->
-    forall grp term rest g, msg_term_ok grp term rest ->
+    forall grp term rest g, msg_term_ok v grp term rest ->
       (length (eb tid v ++ term) < length g)%nat ->
       dm dep tid grp g (eb tid v ++ term) ([], []) = DOk (msg_macc_of v, rest).
 
@@ -491,7 +553,7 @@ Section Main.
         cbn [fst]. rewrite (msg_old_sub_fresh fd accf Hold).
         rewrite <- !app_assoc.
         apply (Hstmt d t Hty Hsz (f_num fd) (enc_tag (f_num fd) 4 ++ tail) tail).
-        + right. auto.
+        + right. repeat split; try assumption. cbn [msg_no_unknown]. destruct u'; [exact I|discriminate].
         + cbn [length]. lia.
     Qed.
   
@@ -770,5 +832,178 @@ Section Main.
         + exists g2. split; [exact Hg2|]. cbn [msg_acc_with app] in E. rewrite E.
           destruct vs; [discriminate|reflexivity].
     Qed.
+
+    (* ---------- all fields, in any order ---------- *)
+    Definition msg_chunk_good (p : N * list value) : Prop :=
+      msg_typed_chunk slow (msg_typed slow S d) tv2 has2 md p = true /\
+      msg_szok_chunk (msg_size_body S) (msg_sizes_ok S) md p = true /\
+      Forall msg_dec_stmt_deep (snd p).
+
+    Lemma msg_nodup_step k (P : fields) accf vs :
+      NoDup (k :: msg_keys P ++ msg_keys accf) -> NoDup (msg_keys P ++ msg_keys (msg_fset accf k vs)).
+    Proof.
+      intros Hnd. inversion Hnd as [|? ? Hnotin Hnd']; subst.
+      assert (Hk : ~ In k (msg_keys accf)) by (intros Hin; apply Hnotin, in_or_app; right; exact Hin).
+      eapply Permutation_NoDup; [|exact Hnd].
+      etransitivity; [apply Permutation_middle|].
+      apply Permutation_app_head. unfold msg_keys.
+      rewrite (Permutation_map fst (msg_fset_perm accf k vs Hk)). reflexivity.
+    Qed.
+
+    Lemma msg_chunks_step fs :
+      msg_oneofs_ok md fs = true ->
+      forall P accf u tail g,
+        Forall msg_chunk_good P -> (forall p, In p P -> In p fs) ->
+        NoDup (msg_keys P ++ msg_keys accf) ->
+        (forall k, In k (msg_keys accf) -> In k (msg_keys fs)) ->
+        (length (flat_map (fun p => snd (msg_enc_chunk eb md p)) P ++ tail) < length g)%nat ->
+        exists g2, (length tail < length g2)%nat /\
+          dm (Datatypes.S d) tid grp g (flat_map (fun p => snd (msg_enc_chunk eb md p)) P ++ tail) (accf, u) =
+          dm (Datatypes.S d) tid grp g2 tail (msg_ins_all P accf, u).
+    Proof.
+      intros Hone. induction P as [|p P IH]; intros accf u tail g Hgood Hin Hnd Hsub Hg.
+      - exists g. cbn [flat_map app] in *. split; [exact Hg|reflexivity].
+      - pose proof (Forall_inv Hgood) as (Hty & Hsz & Hdeep). pose proof (Forall_inv_tail Hgood) as HgoodP.
+        cbn [flat_map] in *. rewrite <- app_assoc in *.
+        unfold msg_typed_chunk in Hty. unfold msg_szok_chunk in Hsz. unfold msg_enc_chunk in *.
+        destruct (msg_find_field md (fst p)) as [fd|] eqn:Hf; [|discriminate].
+        pose proof (msg_find_field_num _ _ _ Hf) as Hnum.
+        cbn [snd] in *.
+        cbn [msg_keys map app] in Hnd. fold (msg_keys P) in Hnd.
+        assert (Hnot : ~ In (f_num fd) (msg_keys accf)).
+        { rewrite Hnum. inversion Hnd as [|? ? Hn _]; subst. intros Hk. apply Hn, in_or_app. right. exact Hk. }
+        assert (Hfree : msg_oneof_free md fd (f_num fd :: msg_keys accf)).
+        { pose proof (msg_oneofs_ok_free md fs p fd Hone (Hin p (or_introl eq_refl)) Hf) as Hfr.
+          intros oi Hoi fd' Hin' Hoi' Hne Hk. apply (Hfr oi Hoi fd' Hin' Hoi' Hne).
+          destruct Hk as [Hk|Hk]; [congruence|apply Hsub; exact Hk]. }
+        rewrite <- Hnum in Hf.
+        destruct (msg_field_step fd (snd p) accf u
+                    (flat_map (fun p0 => snd (match msg_find_field md (fst p0) with
+                                              | Some fd0 => (msg_legacy_key fd0, msg_enc_field eb fd0 (snd p0))
+                                              | None => (0, []) end)) P ++ tail) g
+                    Hf Hty Hsz Hdeep Hnot Hfree Hg) as (g1 & Hg1 & E1).
+        rewrite E1.
+        destruct (IH (msg_fset accf (f_num fd) (snd p)) u tail g1 HgoodP) as (g2 & Hg2 & E2).
+        + intros q Hq. apply Hin. right. exact Hq.
+        + rewrite Hnum. apply msg_nodup_step. exact Hnd.
+        + intros k Hk. apply msg_keys_fset in Hk. destruct Hk as [->|Hk]; [|apply Hsub; exact Hk].
+          rewrite Hnum. apply (in_map fst fs p). apply Hin. left. reflexivity.
+        + exact Hg1.
+        + exists g2. split; [exact Hg2|]. rewrite E2. rewrite Hnum. reflexivity.
+    Qed.
+
+    (* ---------- the unknown section (not inside a group) ---------- *)
+    Lemma msg_rejects_step tagraw num typ r acc :
+      msg_rejects md has2 num typ = true ->
+      msg_step slow md (dm d) (msg_dsub2 slow S d) tagraw num typ r acc = msg_unknown tagraw num typ r acc.
+    Proof.
+      unfold msg_rejects, msg_step. destruct (msg_find_field md num) as [fd|]; [|reflexivity].
+      destruct (f_card fd) as [| | | | |kk ku vd];
+        try (destruct (f_kind fd) as [sk|t|t]; intros H;
+             [ apply andb_true_iff in H; destruct H as [H1 H2];
+               apply negb_true_iff in H1; apply negb_true_iff in H2; rewrite H1;
+               try rewrite H2;
+               repeat match goal with
+                      | H : (?a && ?b && ?c) = false |- context [?a && ?b && ?c] => rewrite H
+                      end; try reflexivity
+             | apply negb_true_iff in H; rewrite H; reflexivity
+             | apply negb_true_iff in H; rewrite H; reflexivity ]).
+      - (* CImp etc. handled above; this is the map case *)
+        intros H. apply andb_true_iff in H. destruct H as [H1 H2]. apply negb_true_iff in H2.
+        destruct d; [discriminate|]. cbn [msg_dsub2]. rewrite H2. reflexivity.
+    Qed.
+
+    Lemma msg_unknown_loop : forall gf u g accf pre,
+      msg_unknown_ok slow md has2 gf u = true -> (length u < length g)%nat ->
+      dm (Datatypes.S d) tid 0 g u (accf, pre) = DOk ((accf, pre ++ u), []).
+    Proof.
+      induction gf as [|x0 gf IH]; intros u g accf pre Hok Hg; [discriminate|].
+      destruct g as [|x g]; [cbn in Hg; lia|].
+      destruct u as [|b0 u0].
+      - rewrite (msg_dm_unfold slow S d tid 0 md x g [] (accf, pre) Hmd). rewrite app_nil_r. reflexivity.
+      - cbn [msg_unknown_ok] in Hok.
+        destruct (dec_tag (b0 :: u0)) as [[[num typ] r]|e] eqn:Hdt; [|discriminate].
+        destruct (parse_val default_dep num typ r) as [[w r']|e] eqn:Hpv; [|discriminate].
+        repeat (apply andb_true_iff in Hok; destruct Hok as [Hok ?]).
+        rename H into Hrec. rename H0 into Hlt. rename H1 into Heq2. rename H2 into Heq1. rename H3 into Hrej.
+        rename H4 into Ht4.
+        apply msg_bytes_eqb_eq in Heq2.
+        rewrite (msg_dm_unfold slow S d tid 0 md x g (b0 :: u0) (accf, pre) Hmd).
+        rewrite Hdt.
+        replace (msg_max_num <? num) with false by lia.
+        apply negb_true_iff in Ht4. rewrite Ht4. cbv zeta.
+        rewrite (msg_rejects_step _ num typ r (accf, pre) Hrej).
+        unfold msg_unknown. rewrite Hpv. cbn [fst snd].
+        assert (Hlen : (length r' <= length r)%nat).
+        { pose proof (f_equal (@length byte) Heq2) as Hl. rewrite app_length in Hl. lia. }
+        rewrite IH; [|exact Hrec|cbn [length] in *; lia].
+        f_equal. f_equal. f_equal. rewrite <- !app_assoc. f_equal.
+        destruct slow.
+        + apply msg_bytes_eqb_eq in Heq1. rewrite <- Heq1 at 3. f_equal. exact Heq2.
+        + apply msg_bytes_eqb_eq in Heq1. rewrite <- Heq1. f_equal. exact Heq2.
+    Qed.
   End InMessage.
+
+  (* ---------- the induction over values ---------- *)
+  Lemma msg_dec_stmt_all : forall v, msg_dec_stmt_deep v.
+  Proof.
+    induction v as [s|fs unk IH|k v IH] using msg_value_ind.
+    - split; [|exact I]. intros dep tid Hty. discriminate.
+    - split; [|exact I]. intros dep tid Hty Hsz grp term rest g Hterm Hg.
+      destruct (msg_typed_unfold slow S dep tid fs unk Hty) as (d & md & -> & Hmd & Hsorted & Hchunks & Hone & Hunk).
+      pose proof (msg_sizes_ok_unfold S tid fs unk Hsz) as Hszc.
+      rewrite (msg_nth_error_nth S tid md Hmd) in Hszc.
+      destruct (msg_enc_body_perm S tid fs unk) as (P & Hperm & Ebody).
+      rewrite Ebody in *. rewrite (msg_nth_error_nth S tid md Hmd) in *. rewrite <- app_assoc in *.
+      apply msg_keys_sorted_spec in Hsorted.
+      assert (HinP : forall p, In p P -> In p fs) by (intros p Hp; eapply Permutation_in; [exact Hperm|exact Hp]).
+      rewrite forallb_forall in Hchunks, Hszc.
+      assert (Hgood : Forall (msg_chunk_good d md) P).
+      { apply Forall_forall. intros p Hp. specialize (HinP p Hp). repeat split.
+        - apply Hchunks, HinP.
+        - apply Hszc, HinP.
+        - rewrite Forall_forall in IH. apply IH, HinP. }
+      assert (Hnd : NoDup (msg_keys P ++ msg_keys [])).
+      { cbn [msg_keys map]. rewrite app_nil_r. eapply Permutation_NoDup.
+        - apply Permutation_sym. apply (Permutation_map fst). exact Hperm.
+        - eapply msg_sorted_nodup. exact Hsorted. }
+      destruct (msg_chunks_step d tid md grp Hmd fs Hone P [] [] (unk ++ term) g Hgood HinP Hnd) as (g2 & Hg2 & E);
+        [intros k []|exact Hg|].
+      etransitivity; [exact E|]. clear E.
+      assert (Hins : msg_ins_all P [] = fs).
+      { destruct (msg_ins_all_props P [] 0) as [Hs Hp]; [exact Hnd|exact I| |].
+        - intros k Hk. apply (msg_sorted_keys_gt 0 fs Hsorted).
+          eapply Permutation_in; [apply (Permutation_map fst); exact Hperm|exact Hk].
+        - rewrite app_nil_r in Hp.
+          eapply msg_sorted_perm_eq; [exact Hs|exact Hsorted|]. rewrite Hp. exact Hperm. }
+      rewrite Hins. cbn [msg_macc_of].
+      destruct Hterm as [(-> & -> & ->)|(Hlo & Hhi & -> & Hnu)].
+      + rewrite app_nil_r in *.
+        rewrite (msg_unknown_loop d tid md Hmd (x00 :: unk) unk g2 fs [] Hunk Hg2). reflexivity.
+      + cbn [msg_no_unknown] in Hnu. destruct unk; [|contradiction]. cbn [app] in *.
+        apply (msg_dm_end_grp slow S d tid md grp g2 rest (fs, []) Hmd Hlo Hhi). lia.
+    - split; [intros dep tid Hty; discriminate|]. exact (proj1 IH).
+  Qed.
 End Main.
+
+(* ---------- C03 ---------- *)
+Theorem msg_roundtrip slow S limit tid v :
+  msg_valid slow S limit tid v = true ->
+  msg_decode slow S limit tid (msg_encode S tid v) = DOk v.
+Proof.
+  unfold msg_valid. intros H. apply andb_true_iff in H. destruct H as [Hsz Hty].
+  unfold msg_decode, msg_decode_into, msg_encode. cbn [msg_empty msg_macc_of].
+  pose proof (proj1 (msg_dec_stmt_all slow S v) limit tid Hty Hsz 0 [] [] (x00 :: msg_enc_body S tid v)) as H.
+  rewrite app_nil_r in H. rewrite H; [|left; auto|cbn [length]; lia].
+  destruct v; try discriminate. reflexivity.
+Qed.
+
+(* encoding is injective on canonical values (used by the determinism properties) *)
+Corollary msg_encode_injective slow S limit tid v1 v2 :
+  msg_valid slow S limit tid v1 = true -> msg_valid slow S limit tid v2 = true ->
+  msg_encode S tid v1 = msg_encode S tid v2 -> v1 = v2.
+Proof.
+  intros H1 H2 E. pose proof (msg_roundtrip slow S limit tid v1 H1) as R1.
+  pose proof (msg_roundtrip slow S limit tid v2 H2) as R2. rewrite E in R1. rewrite R1 in R2.
+  now inversion R2.
+Qed.
